@@ -653,7 +653,7 @@ impl Check for C30 {
         }
     }
     fn quick_runs(&self) -> u64 {
-        8_000
+        24_000
     }
     fn entropy(&self, s: &MScn) -> u64 {
         s.entropy
@@ -690,6 +690,12 @@ impl Check for C30 {
                 _ => Op::Run,
             };
             let is_reset = matches!(op, Op::Reset);
+            if is_reset && r.chance(1, 3) {
+                // the clock-enable bit is on at the moment of the reset (a holder of the MCR handle, or
+                // a stepped program, switched it on): the handle is kept, the fresh memory image is not
+                // supposed to know about it
+                s.ops.push(Op::HostWrite { addr: 0xFFFE, data: 0x8000, privileged: true, track: false });
+            }
             s.ops.push(op);
             if is_reset && r.chance(2, 3) {
                 s.ops.push(Op::Load(0));
@@ -936,7 +942,7 @@ impl Check for C29 {
         }
     }
     fn quick_runs(&self) -> u64 {
-        4_000
+        12_000
     }
     fn entropy(&self, s: &C29Scn) -> u64 {
         s.entropy
